@@ -106,4 +106,29 @@ mod verif_c13_wit {
             for e in r.iter() { assert!(seen.insert(src_of[*e]), "route {:?} leaves vertex {} twice: it contains a loop", r, src_of[*e]); }
         }
     }
+
+    /// C13 "no two are more similar than the configured threshold": Yen's, k = 3, edge-id cosine similarity with threshold 0.5.
+    ///   P0 = [f, a2, a3, a4] (cost 4);  P1 = [f, b1, b2, b3, b4] (cost 7, similarity 0.22 to P0);
+    ///   P2 = [f, b1, x, a3, a4] (cost 14.5): similarity 3/sqrt(20) = 0.67 to P0 (TOO similar), 2/5 = 0.4 to P1 -- the only candidate of the third pass.
+    /// Whatever is returned, every pair of returned routes must be below the threshold.
+    #[test]
+    fn c13_wit_yen_no_two_routes_too_similar() {
+        use crate::model::frontier::default::no_restriction::NoRestriction;
+        use crate::model::termination::termination_model::TerminationModel;
+        //            f          a2         a3         a4         b1         b2         b3         b4         x
+        let edges = [(0, 1, 1.0), (1, 2, 1.0), (2, 3, 1.0), (3, 4, 1.0), (1, 5, 1.5), (5, 6, 1.5), (6, 7, 1.5), (7, 4, 1.5), (5, 2, 10.0)];
+        let si = W::instance(W::graph(8, &edges), std::sync::Arc::new(NoRestriction {}), TerminationModel::IterationsLimit { limit: 10_000 });
+        let q = serde_json::json!({});
+        let query = KspQuery { source: VertexId(0), target: VertexId(4), user_query: &q, k: 3 };
+        let sim = RouteSimilarityFunction::EdgeIdCosineSimilarity { threshold: 0.5 };
+        let r = run(&query, &KspTerminationCriteria::Exact, &sim, &si, &SearchAlgorithm::Dijkstra).expect("an answerable query is not turned into an error");
+        let ids: Vec<Vec<usize>> = r.routes.iter().map(|p| p.iter().map(|e| e.edge_id.0).collect()).collect();
+        assert_eq!(ids[0], vec![0, 1, 2, 3], "the first route is the least-cost route");
+        assert!(ids.contains(&vec![0, 4, 5, 6, 7]), "the dissimilar alternative is offered: {:?}", ids);
+        for i in 0..r.routes.len() { for j in (i + 1)..r.routes.len() {
+            let (a, b): (Vec<&EdgeTraversal>, Vec<&EdgeTraversal>) = (r.routes[i].iter().collect(), r.routes[j].iter().collect());
+            let rank = sim.rank_similarity(&a, &b, &si).unwrap();
+            assert!(rank < 0.5, "routes {:?} and {:?} are returned together although their similarity {} reaches the threshold 0.5", ids[i], ids[j], rank);
+        } }
+    }
 }
